@@ -439,6 +439,11 @@ PosConsistent == (sub.st = "live" /\ Positioned /\ Seen # <<>>) => sub.pos >= Se
 W_RedeliveryAfterCheck == ~(step.act = "Deliver" /\ chk.st = "idle" /\ step.id \in chk.adv /\ sub.st = "live" /\ pend = 0
                             /\ ~cfg.filt /\ ~step.foreign /\ ~step.lagged)      \* the re-delivery must be observable if accepted
 
+\* witness search: "a cache subscribe whose cache-empty handler populated the channel with a publication the filter excludes
+\* never finishes" (the schedule on which a re-read that forgets the filters would deliver it)
+W_PopulatedFiltered == ~(step.act = "SubFinish" /\ cfg.kind = "cache" /\ cfg.pop /\ cfg.filt /\ Len(tags) >= 1
+                         /\ Filtered(tags[Len(tags)]) /\ hres.latest = Len(tags) /\ ReplyIdx # 0)
+
 KindsPos == {"pos"}
 ServersClient == {FALSE}
 
